@@ -5,6 +5,9 @@
 //	observable: "same:<canon|error>" when every program gives the same observable,
 //	            "diff:<obs1>|<obs2>[|<obs3>]" otherwise.
 //
+// `agree` is the same without a predicted value: "agree" when every program gives the same observable,
+// "diff:…" otherwise (used for operators outside the Lean model).
+//
 // A panic inside one program is reported as that program's observable (`panic:<frame>`), so that the
 // other programs of the tuple are still evaluated.
 package main
@@ -41,6 +44,23 @@ func init() {
 		}
 		if same && len(obs) > 0 {
 			return "same:" + obs[0]
+		}
+		return "diff:" + strings.Join(obs, "|")
+	})
+}
+
+func init() {
+	hlib.Register("agree", func(p []string) string {
+		obs := make([]string, len(p))
+		same := true
+		for i, src := range p {
+			obs[i] = evalOne(src)
+			if obs[i] != obs[0] {
+				same = false
+			}
+		}
+		if same && len(obs) > 0 && !strings.HasPrefix(obs[0], "panic") {
+			return "agree"
 		}
 		return "diff:" + strings.Join(obs, "|")
 	})
